@@ -165,6 +165,14 @@ func TestC20(t *testing.T) {
 	c = base
 	c.SharedIK, c.IKPolicy, c.IKCap = true, "lfu", 64
 	cfgs = append(cfgs, namedCfg{"shared-lfu64", c})
+	// the two key caches have their own sizes: a working set that fits the intermediate-key cache is cached whatever
+	// the (small) system-key cache size is, and vice versa
+	c = base
+	c.SharedIK, c.IKPolicy, c.IKCap, c.SKPolicy, c.SKCap = true, "lru", 32, "lru", 2
+	cfgs = append(cfgs, namedCfg{"shared-lru32/sk-lru2", c})
+	c = base
+	c.SharedIK, c.IKPolicy, c.IKCap, c.SKPolicy, c.SKCap = true, "slru", 40, "lfu", 1
+	cfgs = append(cfgs, namedCfg{"shared-slru40/sk-lfu1", c})
 	c = base
 	c.SessCache, c.SessCap, c.SessDur = true, 100, 10000*time.Hour
 	cfgs = append(cfgs, namedCfg{"session-cache", c})
